@@ -13,7 +13,7 @@ var corpusC11b = []string{`a==1`, `a == 1 or b == 2`, `(a==1)`, `a ==`, `(1 in f
 func H_C11_create() {
 	s := corpusC11b[vChoose(len(corpusC11b))]
 	n := vUint64()
-	w := uint64(16)
+	w := uint64(6)
 	if vTier() > 0 {
 		w = 64
 	}
